@@ -169,6 +169,12 @@ def run(case: dict, ctx) -> dict:
         l1_extra=rng.choice([0, 0, 1, 5]), drop_empty_l2=True, level=rng.choice([1, 6, 9]),
     )
     model = Model(size, layers)
+    if len(layers) == 1 and not external and img.end <= (8 << 20) and case["i"] % 3 == 0:
+        from vf.diskcheck import triangulate
+        from vf.refreaders import RefQCow2
+
+        triangulate(rng, RefQCow2(img.to_bytes()), model, "qcow2")
+        res["cnt"]["writer_triangulations"] = 1
     small = img.end <= (8 << 20)
     fh = as_handle(img.to_bytes() if small else img)
     dfh = None
